@@ -103,10 +103,11 @@ func (P) Generate(g *core.Gen) {
 		g.Case("race-detector", true, "C05 racebuild 6")
 	}
 	emit := func(class, line string) { g.Case(class, true, line) }
+	start := g.R.Intn(len(faultKinds))
 	for i := g.N(5, 40); i > 0; i-- {
-		genFaultFamily(g.R, emit)
+		genFaultFamily(g.R, faultKinds[(start+i)%len(faultKinds)], emit)
 	}
-	for i := g.N(3, 30); i > 0; i-- {
+	for i := g.N(2, 24); i > 0; i-- {
 		genImageFamily(g.R, emit)
 	}
 }
